@@ -806,12 +806,20 @@ pub fn gen_case(rng: &mut Rng, tier: &str, profile: &str, stats: &mut Stats) -> 
         }
         let pk = key_at(&local, hb, rng);
         ops.push(format!("kins {} v{}:- c o", hx(&pk), 7_000_000 + 8 * 16));
-        if rng.chance(2, 3) {
-            ops.push(format!("krm {}", hx(&members[rng.range(1, 15) as usize])));
+        // several members leave: the candidate still waits although there is room
+        let gone = rng.range(1, 10) as usize;
+        for m in members.iter().skip(1).take(gone) {
+            ops.push(format!("krm {}", hx(m)));
+        }
+        // another bucket with a few nodes
+        let ob = hot[hot.len() - 1];
+        for j in 0..rng.range(2, 6) {
+            let k = key_at(&local, ob, rng);
+            ops.push(format!("kins {} v{}:- c o", hx(&k), 7_100_000 + 8 * j));
         }
         ops.push("ksleep 450".into());
-        let other = hot[hot.len() - 1] as u64 + 1;
-        let ds = if rng.chance(1, 2) { format!("{}", hb + 1) } else { format!("{},{}", other, hb + 1) };
+        let other = ob as u64 + 1;
+        let ds = match rng.below(3) { 0 => format!("{}", hb + 1), 1 => format!("{},{}", other, hb + 1), _ => format!("{},{}", hb + 1, other) };
         ops.push(format!("kbydist {} {}", ds, *rng.pick(&[16u64, 16, 40, 5])));
         ops.push("kdump".into());
     }
